@@ -31,6 +31,7 @@ type vReplayFile struct {
 		N    int `json:"n"`
 	} `json:"fault"`
 	ReadLens []int          `json:"read_lens"`
+	Repeat   int            `json:"repeat"`
 	Params   map[string]int `json:"params"`
 	Expect string         `json:"expect"`
 }
@@ -272,21 +273,33 @@ func TestVerifReplay(t *testing.T) {
 	verifDrawHook = func(n uint32) { verifDrawLog = append(verifDrawLog, vDrawRec{n, vTapePos}) }
 	defer func() { verifDrawHook = nil }()
 	result := "passed"
-	func() {
-		defer func() {
-			if r := recover(); r != nil {
-				switch x := r.(type) {
-				case vAssertFailed:
-					result = "assert-failed: " + x.msg
-				case vAssumeFailed:
-					result = "assume-failed"
-				default:
-					result = fmt.Sprintf("panic: %v", r)
+	runs := vRF.Repeat
+	if runs < 1 {
+		runs = 1
+	}
+	done := 0
+	for ; done < runs && result == "passed"; done++ {
+		vTapePos, vReadCnt, vFaultRd, vFaultWas, vPadded = 0, 0, -1, false, 0
+		verifDrawLog = nil
+		func() {
+			defer func() {
+				if r := recover(); r != nil {
+					switch x := r.(type) {
+					case vAssertFailed:
+						result = "assert-failed: " + x.msg
+					case vAssumeFailed:
+						result = "assume-failed"
+					default:
+						result = fmt.Sprintf("panic: %v", r)
+					}
 				}
-			}
+			}()
+			h()
 		}()
-		h()
-	}()
+	}
+	if runs > 1 {
+		fmt.Printf("REPLAY-NOTE: order-dependent counterexample, %d of up to %d runs made\n", done, runs)
+	}
 	if vPadded > 0 {
 		fmt.Printf("REPLAY-NOTE: the real code read %d bytes beyond the scripted tape (served as zeros)\n", vPadded)
 	}
